@@ -33,6 +33,7 @@ HAND_FILES = ["Props/C23_model.v", "Props/C23_syn.v", "Props/C23_syn2.v", "Props
               "Props/C23_real.v", "Props/C23_eqc.v"]
 
 TY = {"real": 0, "complex": 1, "bool": 2}
+VARIANT = {"fixm": False, "fixp": False}      # set by T1 from the source
 
 EXTRA_HEADER = r'''
 (* "the data are real": real part and conjugation are the identity *)
@@ -45,7 +46,7 @@ Ltac close23 := norm_goal; rewrite ?re_id, ?conj_id; first [ reflexivity | ring 
 def model_table(name):
     """names of the classes in the model's cc_dispatch table (read from the hand-written file)"""
     src = open(os.path.join(vlib.COQ, "Props/C23_model.v")).read()
-    m = re.search(r"Definition cc_dispatch[^:]*:[^=]*:=\s*\[(.*?)\]\.", src, re.S)
+    m = re.search(r"Definition cc_dispatch0[^:]*:[^=]*:=\s*\[(.*?)\]\.", src, re.S)
     return re.findall(r'\("([A-Za-z0-9]+)",\s*"[a-z_]+"\)', m.group(1))
 
 
@@ -61,6 +62,15 @@ def t1_rules(run):
     problems += p1 + p2
     problems += L.parse_entry(ccp, "do_comparison_check", "CheckComparisons", "form")
     problems += L.parse_entry(rmp, "remove_complex_nodes", "ComplexNodeRemoval", "expr")
+    # which of the two known variants of the analysis does the source implement?
+    #   fixm: handlers ln / acos / asin / bessel_function aliased to sqrt (typed complex)
+    #   fixp: power converts only literal RealValue | Zero exponents
+    # (pinned tree: neither; fixes/C23-partial-mathfn.diff: both; anything else fails an obligation below)
+    FIX_ALIASES = {"ln", "acos", "asin", "bessel_function"}
+    fixm = any(a in FIX_ALIASES for a, _ in cc_alias)
+    fixp = any(n == "power" and r[0] == "HPowerLit" for n, r in cc_rules)
+    VARIANT["fixm"], VARIANT["fixp"] = fixm, fixp
+    bm, bp = ("true" if fixm else "false"), ("true" if fixp else "false")
     names = model_table("cc_dispatch")
     cc_disp, _ = L.dispatch_table(CheckComparisons, names, cc_alias)
     rm_disp, _ = L.dispatch_table(ComplexNodeRemoval, names, rm_alias)
@@ -72,11 +82,11 @@ def t1_rules(run):
            "Fixpoint lookup {T} (k : string) (l : list (string * T)) : option T :=\n"
            "  match l with [] => None | (k', v) :: t => if String.eqb k k' then Some v else lookup k t end.\n"]
     for nm, r in cc_rules:
-        txt.append(f"Example src_cc_rule_{nm} : lookup {q(nm)} cc_rules = Some {L.coq_rule(r)}. Proof. reflexivity. Qed.\n")
-    txt.append(f"Example src_cc_rule_count : List.length cc_rules = {len(cc_rules)}. Proof. reflexivity. Qed.\n")
+        txt.append(f"Example src_cc_rule_{nm} : lookup {q(nm)} (cc_rules {bp}) = Some {L.coq_rule(r)}. Proof. reflexivity. Qed.\n")
+    txt.append(f"Example src_cc_rule_count : List.length (cc_rules {bp}) = {len(cc_rules)}. Proof. reflexivity. Qed.\n")
     for a, b in cc_alias:
-        txt.append(f"Example src_cc_alias_{a} : lookup {q(a)} cc_aliases = Some {q(b)}. Proof. reflexivity. Qed.\n")
-    txt.append(f"Example src_cc_alias_count : List.length cc_aliases = {len(cc_alias)}. Proof. reflexivity. Qed.\n")
+        txt.append(f"Example src_cc_alias_{a} : lookup {q(a)} (cc_aliases {bm}) = Some {q(b)}. Proof. reflexivity. Qed.\n")
+    txt.append(f"Example src_cc_alias_count : List.length (cc_aliases {bm}) = {len(cc_alias)}. Proof. reflexivity. Qed.\n")
     for nm, r in rm_rules:
         txt.append(f"Example src_rm_rule_{nm} : lookup {q(nm)} rm_rules = Some {L.coq_rule(r)}. Proof. reflexivity. Qed.\n")
     txt.append(f"Example src_rm_rule_count : List.length rm_rules = {len(rm_rules) + len(rm_alias)}. Proof. reflexivity. Qed.\n")
@@ -90,7 +100,7 @@ def t1_rules(run):
     txt.append(f"Example src_rm_cutoff_handlers : [{'; '.join(q(n) for n in rm_cut)}] = rm_cutoff_handlers. Proof. reflexivity. Qed.\n")
     if cc_cut or rm_cut:
         problems.append(f"cutoff handlers (operands not visited): CheckComparisons {cc_cut}, ComplexNodeRemoval {rm_cut}")
-    txt.append(f"Example src_cc_dispatch : cc_dispatch = [{cd}]. Proof. reflexivity. Qed.\n")
+    txt.append(f"Example src_cc_dispatch : cc_dispatch {bm} = [{cd}]. Proof. reflexivity. Qed.\n")
     txt.append(f"Example src_rm_dispatch : rm_dispatch = [{rd}]. Proof. reflexivity. Qed.\n")
     path = os.path.join(vlib.GEN, "C23_rules.v")
     vlib.write_if_changed(path, "".join(txt))
@@ -99,6 +109,7 @@ def t1_rules(run):
     if not res.ok:
         problems.append(f"Gen/C23_rules.v: obligation {res.failing_lemma()} fails: "
                         + " ".join((res.err or '').strip().split('\n')[-3:])[:300])
+    run.extra["variant"] = dict(VARIANT)
     run.extra["t1"] = {"cc_rules": [list(map(str, (n,) + r)) for n, r in cc_rules], "cc_aliases": cc_alias,
                        "rm_rules": [list(map(str, (n,) + r)) for n, r in rm_rules],
                        "dispatch_classes": len(names), "source_problems": problems}
@@ -190,7 +201,7 @@ def build_cases(run, mode, n, seed):
             stats["value_only"] += 1
         if mode == "complex":
             impl = f"(Some ({to}, {TY[t]}))" if out is not None else "None"
-            c.text = f"agree_check {ti} {impl}"
+            c.text = f"agree_check {'true' if VARIANT['fixm'] else 'false'} {ti} {impl}"
         else:
             impl = f"(Some {to})" if out is not None else "None"
             c.text = f"agree_remove {ti} {impl}"
@@ -358,6 +369,9 @@ def main(run):
     # property oracle on every accepted case (complex-valued numeric evaluation)
     known = vlib.load_known_findings("C23")
     kn = next((k for k in known if k.get("id") == "partial-mathfn-typed-real"), None)
+    L.KNOWN_CLASS_ACTIVE = kn is not None and not VARIANT["fixm"]
+    if VARIANT["fixm"]:
+        kn = None       # the source types ln/acos/asin/Bessel complex: the finding explains nothing any more
     oracle_hits, known_hits = [], 0
     for c in cases:
         if c.out is None:
